@@ -10,7 +10,7 @@ import os
 
 H = []
 
-C05_QUICK = {"c10_decoder_total_q", "c17_iter_blocks_logging_q", "c17_iter_no_buffer", "c14_master_empty_terminates",
+C05_QUICK = {"c14_master_zero_length_storage", "c10_decoder_total_q", "c17_iter_blocks_logging_q", "c17_iter_no_buffer", "c14_master_empty_terminates",
              "c14_master_receive_3slots_q", "c18_livelist_transmit", "c18_livelist_reply_or_timeout", "c18_scanner_transmit",
              "c18_scanner_reply_or_timeout", "c03_receive_step_q", "c03_transmit_step_q", "c16_receive_one_vs_decoder_q", "c12_gap_lemma"}
 
@@ -138,6 +138,9 @@ MAS_OBL = "termination of the master's turn; per slot: untouched | declined | se
 h("c14_master_empty_terminates", "dp_master.rs", MV, ["C14"], panic_props=["C14", "C05"], timeout_s=600, functions=MASF, derived_loops=[""],
   bounds="DP master with one unoccupied storage slot (no peripheral configured), any operating/cycle state, high-priority-only turn (global control never due); slot loop bound derived: <= 2 passes; unwind 5",
   obligation="the turn ends (no hang), nothing is sent, the cycle restarts at slot 0", hang_test="hang_c14_master_empty")
+h("c14_master_zero_length_storage", "dp_master.rs", MV, ["C14"], panic_props=["C14", "C05"], timeout_s=600, functions=MASF, derived_loops=[""],
+  bounds="DP master over a zero-length storage slice, any operating/cycle state, high-priority-only turn; unwind 5",
+  obligation="the turn ends without panic, nothing is sent, the cycle restarts at slot 0", hang_test="hang_c14_master_empty")
 h("c14_master_receive_3slots_q", "dp_master.rs", MV, ["C14"], panic_props=["C14", "C05"], timeout_s=1200, mem_gb=10, weight=2, stubbing=True, functions=MASF,
   stubs=["Peripheral::receive_reply -> arbitrary post-state under Inv_DP + arbitrary event (its real behaviour is c03_receive_step_*'s subject)"],
   bounds="3 storage slots with symbolic occupancy, any cycle index with a reply outstanding for the slot it denotes; unwind 8",
@@ -440,6 +443,16 @@ COMMON_ASSUMPTIONS = [
     "debug profile semantics (debug assertions and overflow checks on), as Kani compiles",
 ]
 TRUSTED = ["rustc -> Kani 0.68.0 -> CBMC 6.11.0 -> CaDiCaL", "Kani models of core/alloc intrinsics", "reference models/oracles in /verif/harness (the specification side)"]
+
+# replay twins (DESIGN section 0, "Runner"): a failing station step whose counterexample passes
+# through a ring-mutating call is re-derived on the twin (precise reference ring over a small
+# consistent LAS) so that the native replay against the real TokenRing is faithful
+import re as _re
+_TWINS = {"l2_listen_token", "l2_active_idle", "l2_check_token_pass", "l2_claim_token", "l2_pass_token", "l2_await_status_response"}
+for _e in H:
+    _base = _re.sub(r"(_log)?(_b\d+)?$", "", _e["name"])
+    if _base in _TWINS:
+        _e["replay_harness"] = _base + "__replay"
 
 if __name__ == "__main__":
     out = os.path.join(os.path.dirname(os.path.abspath(__file__)), "harness", "registry.json")
